@@ -211,3 +211,22 @@ def run(ctx):
     ctx.floor("C28.5", "next_page_id assignments in write_vacuum_copy", n5, 1)
     from .c18 import complete_walk_rule
     complete_walk_rule(ctx, "C28.6")
+
+    # ---- clause 7: the page enumeration of a segment is unconditional --------------------------------------------
+    # CsrSegment::load reads all four page lists of a manifest segment on every open, whatever the segment contains.  The enumerator vacuum
+    # marks from (csr::segment_data_page_ids) must therefore hand out the decoded page lists on every successful return; an early
+    # `Ok(empty)` ("edge-less segment, nothing worth copying") drops pages the next open still reads: `page N not allocated`.
+    ctx.rule("C28.7", "every Ok return of csr::segment_data_page_ids passes through the page-list decoder the loader uses (no shortcut for special segments)")
+    eb7 = ctx.body("nervusdb_storage::csr::segment_data_page_ids")
+    dec = [c for c in eb7.calls() if c.name == "nervusdb_storage::csr::decode_page_lists"]
+    ctx.floor("C28.7", "decode_page_lists calls in segment_data_page_ids", len(dec), 1)
+    okd = [o for o in (paths.ok_arm(eb7, c) for c in dec) if o is not None]
+    rets = paths.success_returns_reachable(eb7, [0], avoid=okd)
+    ctx.instance("C28.7", "segment_data_page_ids: success returns that bypass decode_page_lists: %d" % len(rets))
+    ctx.oblige(not rets, "C28.7", "segment_data_page_ids:ok-without-page-lists",
+               "segment_data_page_ids can return Ok without having decoded the segment's page lists: vacuum then leaves pages unmarked that CsrSegment::load "
+               "reads on the next open (the vacuumed database cannot be reopened)", eb7.file)
+    lb7 = ctx.body("nervusdb_storage::csr::CsrSegment::load")
+    ctx.instance("C28.7", "CsrSegment::load decodes the page lists through the same function: %s" % bool(F.reaches("nervusdb_storage::csr::CsrSegment::load", {"nervusdb_storage::csr::decode_page_lists"})))
+    ctx.oblige(bool(F.reaches("nervusdb_storage::csr::CsrSegment::load", {"nervusdb_storage::csr::decode_page_lists"})), "C28.7", "load-uses-other-decoder",
+               "CsrSegment::load no longer shares decode_page_lists with the vacuum enumerator: the two can disagree about which pages a segment owns", lb7.file)
